@@ -17,7 +17,7 @@ from vlib.kernel import KernelBuild, located_rules
 from . import _common
 
 ID = "K19"
-SERVES = ["C18", "C13"]
+SERVES = ["C18", "C19", "C13"]
 TITLE = "Preprocessor::calculateHash: token bytes determine spelling and location"
 
 RULES = [
@@ -129,15 +129,38 @@ def build(ctx):
         if re.search(r'hashData\s*(\+=|=|\.)', extract.mask(t)):
             raise extract.ExtractError("K19 block %d: an append to hashData was not lowered: %r" % (occ, t.strip()[:200]))
         out.append("void hash_token_%d(struct vout *hashData, const char *tok_str, size_t tok_str_len, unsigned tok_line, unsigned tok_col)\n{\n%s\n}\n" % (occ, t))
+    # header of the function: everything between `std::string hashData = toolinfo;` and the first token loop
+    hreg = extract.locate_region("lib/preprocessor.cpp", fsig, r'std::string\s+hashData\s*=\s*toolinfo\s*;', r'for\s*\(\s*const\s+simplecpp::Token', include_end=False, expect=1)
+    kb.add_located("Preprocessor::calculateHash [header: language]", hreg, "region")
+    ht, k = located_rules(hreg, [
+        (r'std::string\s+hashData\s*=\s*toolinfo\s*;', '', 1, 1),
+        (r'hashData\s*\+=\s*std::to_string\(\(uint8_t\)\(mLang\)\)\s*;', 'vout_dec_small(hashData, (unsigned long long)((uint8_t)(mLang)));', 0, 1),
+        (r"hashData\s*\+=\s*('(?:\\.|[^'\\])')\s*;", r'vout_ch(hashData, \1);', 0),
+    ], ID + ".header"); n += k
+    if re.search(r'hashData\s*(\+=|=|\.)', extract.mask(ht)):
+        raise extract.ExtractError("K19 header: an append to hashData was not lowered: %r" % ht.strip()[:200])
+    out.append("void hash_header(struct vout *hashData, unsigned mLang)\n{\n%s\n}\n" % extract.strip_comments(ht))
     kb.rules_fired = n
     text = "".join(out)
     extract.residue_scan(text, ID)
-    kb.ctext = text + HARNESS
+    kb.ctext = text + HARNESS + r'''
+/* the language a file is analysed as (--language / extension) must reach the hashed bytes (property C19) */
+unsigned g_in_lang1, g_in_lang2;
+void h_lang(void) {
+    unsigned l1 = nondet_unsigned(), l2 = nondet_unsigned(); __CPROVER_assume(l1 < 256 && l2 < 256 && l1 != l2);   /* Standards::Language : uint8_t */
+    g_in_lang1 = l1; g_in_lang2 = l2;
+    struct vout a, b; vout_init(&a); vout_init(&b); hash_header(&a, l1); hash_header(&b, l2);
+    __CPROVER_assert(!a.overflow && !b.overflow, "sink capacity suffices");
+    __CPROVER_assert(!vout_equal(&a, &b) && !vout_is_prefix(&a, &b), "different languages give different, prefix-free header bytes");
+}
+'''
+    j = kb.job("lang", "h_lang", kind="bounded", unwind=50, note="all 256 values of the uint8_t language enum; loops fully unwound (complete)")
+    j.props = ["C19"]
     for occ in (0, 1):
         for nm in ("loc", "inj", "prefix"):
-            kb.job("%s.%d" % (nm, occ), "h_%s_%d" % (nm, occ), kind="bounded", unwind=50, replay="hash", timeout=600,
+            kb.job("%s.%d" % (nm, occ), "h_%s_%d" % (nm, occ), kind="bounded", unwind=50, replay="hash", timeout=600, props=["C18", "C13"],
                    note="token spelling 1..3 bytes (all byte values), line and column all 2^32 values; loops fully unwound")
-        kb.job("cover.%d" % occ, "h_cover_%d" % occ, kind="cover", unwind=50)
+        kb.job("cover.%d" % occ, "h_cover_%d" % occ, kind="cover", unwind=50, props=["C18", "C13"])
     kb.job("dec.lemma", "h_dec_lemma", kind="bounded", unwind=12, flags=["--sat-solver", "cadical"], timeout=600,
            note="digit strings of length <= 10 (every 32-bit value); lemma instantiated by the abstract renderer vout_dec")
     kb.assumptions += ["std::to_string(unsigned) is modelled by prelude/vout.h vout_dec: 1..20 decimal digits, no leading zero, "
